@@ -111,6 +111,50 @@ def _job(doc):
     return (items, full, bare)
 
 
+# ---------------------------------------------------------------------------
+# header insertion into richer documents: a header between two sentences must not change either sentence's rules
+# ---------------------------------------------------------------------------
+PAIR_DECL = 'A disk is identified by an id.\nA peg is identified by an id.\nA disk goes from 0 to 2.\nA peg goes from 1 to 2.\n'
+PAIR_POOL = [
+    'Whenever there is a disk D, then D can be moved to a peg.',
+    'Whenever there is a disk D, then D can be kept, where D is less than 3.',
+    'It is required that the number of disks that are moved to a peg is equal to 1.',
+    'It is prohibited that the number of disk D that are moved to peg P is more than 2, whenever there is a peg P.',
+    'It is prohibited that the number of pegs where a disk D is moved to is more than 1, whenever there is a disk D.',
+    'It is required that the number of disks D that are moved to peg 1 is at least 1, where D is greater than 0.',
+    'Every disk D must be on peg 1, where D is greater than 0.',
+    'It is prohibited that disk D is moved to peg P, where D is greater than P.',
+    'It is prohibited that X is more than 1, whenever there is a disk with id X, whenever there is a peg with id X.',
+    'It is required that the sum between D, and P is less than 9, whenever there is a disk with id D, whenever there is a peg with id P.',
+    'It is prohibited that there is a disk with id D, whenever there is not a peg with id D.',
+]
+
+
+def pair_docs(rng, tier, phrases):
+    """(sentences, header positions): every ordered pair of the pool with a header between them (the first sentence of a block
+    right after the last of another), plus wide-generator specifications with 1..3 headers at random sentence boundaries"""
+    docs = []
+    for a in PAIR_POOL:
+        for b in PAIR_POOL:
+            if a != b:
+                h0 = rng.choice(phrases)
+                docs.append((PAIR_DECL, [PAIR_POOL[0], a, b] if PAIR_POOL[0] not in (a, b) else [a, b], None, rng.choice(phrases), h0))
+    return docs
+
+
+def _pair_job(doc):
+    decl, sents, _, h, h0 = doc
+    k = len(sents) - 1          # the header goes between the last two sentences
+    with_h = decl + h0 + '\n' + '\n'.join(sents[:k]) + '\n' + h + '\n' + '\n'.join(sents[k:]) + '\n'
+    bare = decl + '\n'.join(sents) + '\n'
+    return (doc, with_h, rt.compile_cnl(with_h), rt.compile_cnl(bare))
+
+
+def _wide_job(args):
+    text_h, text_bare = args
+    return (text_h, rt.compile_cnl(text_h), rt.compile_cnl(text_bare))
+
+
 def main(tier):
     run = common.Run(PROP, tier)
     rng = random.Random(run.seed)
@@ -214,6 +258,45 @@ def main(tier):
         if canon(model_lines) != canon(lines):
             run.broke('corr', 'emit (run events) vs real output lines', {'model': model_lines[:12], 'real': lines[:12], 'cnl': replay['cnl']})
             break
+    # ---- header insertion into richer documents ----------------------------------------------
+    from .. import gen_wide
+    n_pairs = 0
+    for doc, with_h, full, bare in rt.pmap(_pair_job, pair_docs(rng, tier, phrases), chunksize=2):
+        run.count(('pair', tuple(doc[1]), doc[3], doc[4]))
+        if full[0] != 'ok' or bare[0] != 'ok':
+            if (full[0] == 'ok') != (bare[0] == 'ok'):
+                run.violation('accept/headers-change-acceptance/pair', f'with headers: {full[0]}, without: {bare[0]}', {'cnl': with_h})
+            continue
+        n_pairs += 1
+        if [l for l in output_lines(full[1]) if l[0] == 'r'] != output_lines(bare[1]):
+            run.violation('strip/rules-differ/pair', 'a header between two sentences changes the rules of one of them',
+                          {'cnl': with_h, 'output': full[1], 'header_free': bare[1]})
+    wide = []
+    for _ in range(40 if tier == 'quick' else 400):
+        sp = gen_wide.gen_spec(rng)
+        head = [x.text for x in sp.sentences if x.kind in ('declaration', 'constant')]
+        rest = [x.text for x in sp.sentences if x.kind not in ('declaration', 'constant')]
+        if len(rest) < 2:
+            continue
+        cuts = sorted(rng.sample(range(0, len(rest)), min(len(rest), rng.randrange(1, 4))))
+        out = list(head)
+        for i, t in enumerate(rest):
+            if i in cuts:
+                out.append(rng.choice(phrases))
+            out.append(t)
+        wide.append(('\n'.join(out) + '\n', '\n'.join(head + rest) + '\n'))
+    n_wide = 0
+    for text_h, full, bare in rt.pmap(_wide_job, wide, chunksize=2):
+        run.count(('wide', text_h))
+        if full[0] != 'ok' or bare[0] != 'ok':
+            if (full[0] == 'ok') != (bare[0] == 'ok'):
+                run.violation('accept/headers-change-acceptance/wide', f'with headers: {full[0]} {str(full[1])[:150]}, without: {bare[0]} {str(bare[1])[:150]}', {'cnl': text_h})
+            continue
+        n_wide += 1
+        if [rt.norm_uuid(l[1]) for l in output_lines(full[1]) if l[0] == 'r'] != [rt.norm_uuid(l[1]) for l in output_lines(bare[1])]:
+            run.violation('strip/rules-differ/wide', 'headers inserted at sentence boundaries change the rules',
+                          {'cnl': text_h, 'output': full[1], 'header_free': bare[1]})
+    run.coverage['header_insertion'] = {'sentence_pairs': n_pairs, 'wide_specifications': n_wide}
     for items, full, bare in results[20:23]:
         run.sample({'cnl': render(items, True), 'output': full[1] if full[0] == 'ok' else str(full[1])})
     run.assumptions += ['per-sentence rule counts of the generator templates (1 rule per choice/constraint/range, 2 for a two-valued '
